@@ -250,6 +250,8 @@ MUTANTS["C10"] = [
     ("cant_delete-default-any-interface-word", "annet/annlib/rbparser/acl.py", '(lambda raw_rule: [raw_rule.startswith("interface")])', '(lambda raw_rule: ["interface" in raw_rule])'),
     ("multi-line-yield-margin-ignores-first-line", "annet/generators/base.py", "        rows = textwrap.dedent(text).strip().split(\"\\n\")", "        import inspect\n        rows = inspect.cleandoc(text).split(\"\\n\")"),
     ("exclusivity-also-for-device-rows", "annet/gen.py", "            old = (old and patching.apply_acl(old, acl_rules))", "            old = (old and patching.apply_acl(old, acl_rules, exclusive=not ctx.args.no_acl_exclusive))"),
+    ("acl-matching-stops-after-direct-matches", "annet/annlib/patching.py", "    res.sort(key=operator.itemgetter(0), reverse=True)\n    return [item[1] for item in res]", "    if any(not item[1][1].get(\"is_reverse\") for item in res):\n        res = [item for item in res if not item[1][1].get(\"is_reverse\")]\n    res.sort(key=operator.itemgetter(0), reverse=True)\n    return [item[1] for item in res]"),
+    ("generator-object-not-reset-between-runs", "annet/generators/partial.py", "    def __call__(self, device, annotate=False):\n        self._indents = []\n        self._rows = []\n", "    def __call__(self, device, annotate=False):\n"),
 ]
 
 MUTANTS["C14"] = [
